@@ -278,6 +278,20 @@ CORPUS = [
         [0, "move_child_to", [1, 0], "\u00e9", [0, 1], "x", "y"],
         [2, "move_child_to", [1, 0], "\u00e9", [1, 0], "b", "y"],
         [2, "get_metadata_for", [1, 0], "b"]]},
+    # spellings that NFC changes although they contain no combining mark — ANGSTROM SIGN, KELVIN SIGN, conjoining
+    # Hangul jamo — are the same key as their NFC form (seeded C20-d: normalize() skipping NFC for such names)
+    {"names": ["\u00c5", "\u212b", "\ud55c", "\u1112\u1161\u11ab", "K", "\u212a"], "ops": [
+        [1, "set_node", [0, 0], "\u00c5", ["pool", 0], {"k1": 1}, "y"],
+        [1, "set_node", [0, 0], "\u212b", ["pool", 3], None, "n"],
+        [1, "set_node", [0, 0], "\ud55c", ["dir", 1, "rw"], None, "y"],
+        [1, "set_uri", [0, 0], "\u1112\u1161\u11ab", ["pool", 3], None, "f"],
+        [1, "set_node", [0, 0], "K", ["pool", 5], None, "y"],
+        [1, "has_child", [0, 0], "\u212a"],
+        [1, "set_metadata_for", [0, 0], "\u1112\u1161\u11ab", {"m": 1}],
+        [1, "delete", [0, 0], "\u212a", True, False, False],
+        [1, "move_child_to", [0, 0], "\u212b", [1, 0], "\u212a", "n"],
+        [1, "get", [1, 0], "K"],
+        [1, "set_children", [1, 0], [["\u1112\u1161\u11ab", ["pool", 0], None], ["\ud55c", ["pool", 3], None]], "y", False]]},
     # metadata given without user keys clears the user metadata, None keeps it (seeded C20-c)
     {"names": ["x", "y", "z"], "ops": [
         [1, "set_node", [0, 0], "x", ["pool", 0], {"k1": 1, "k2": "v"}, "y"],
